@@ -1226,6 +1226,10 @@ var msgMatchers = []msgMatcher{
 			{"auth of admin", winboxMsg("admin", 32, 1, 6, 0), "yes"},
 			{"auth of admin, parity 0", winboxMsg("admin", 32, 0, 6, 0), "yes"},
 			{"auth of a one-letter user", winboxMsg("a", 32, 1, 6, 0), "yes"},
+			{"auth of a two-letter user", winboxMsg("ab", 32, 1, 6, 0), "yes"},
+			{"auth of a three-letter user", winboxMsg("abc", 32, 1, 6, 0), "yes"},
+			{"two-letter user, RoMON", winboxMsg("ab+r", 32, 1, 6, 0), "yes"},
+			{"two characters, the second a dash", winboxMsg("a-", 32, 1, 6, 0), "no"},
 			{"RoMON auth (user+r)", winboxMsg("admin+r", 32, 1, 6, 0), "yes"},
 			{"user with dots and dashes", winboxMsg("a.b-c_d@e#1", 32, 0, 6, 0), "yes"},
 			{"key containing a zero byte", winboxLong(5, 7), "yes"},
@@ -1254,7 +1258,7 @@ var msgMatchers = []msgMatcher{
 			{"empty", []byte{}, "more"},
 			{"http", []byte("GET / HTTP/1.1\r\nHost: example.com\r\nAccept: */*\r\n\r\n"), "no"},
 		},
-		source: "Winbox (MikroTik) login: one chunk [length, type 0x06] holding user name, 0x00, 32 public key bytes, parity 0/1; the user name matches ^[0-9A-Za-z](?:[-#.0-9@A-Z_a-z]+[0-9A-Za-z])?$ after removing the RoMON suffix '+r'",
+		source: "Winbox (MikroTik) login: one chunk [length, type 0x06] holding user name, 0x00, 32 public key bytes, parity 0/1; the user name starts and ends with a letter or digit and has letters, digits and - # . @ _ in between (one, two or more characters) after removing the RoMON suffix '+r'",
 	},
 	{
 		fn: "modules/l4winbox.(*MatchWinbox).Match", cfgName: "winbox standard only", heap: winboxCfg(true, false, "", ""), cfg: winboxJSON([]string{"standard"}, "", ""),
